@@ -49,6 +49,9 @@ def run(ctx):
         PC.corr_package(ctx, h.root, data, 'C16')
         pk = P.read_package(data)
         case = {'history': C03.describe(h)}
+        for dsub in h.docs[1:]:
+            if dsub.settings.childNodes and C03.reachable(h.root, dsub) and dsub.folder[1:] + '/settings.xml' not in pk['members']:
+                ctx.violation('object-settings-lost', dict(case, object=dsub.folder), sorted(m for m in pk['members'] if m.startswith(dsub.folder[1:] + '/')), 'settings.xml in the folder of the object', {})
         for k, doc in enumerate(h.docs[1:]):
             ctx.oracle_cases += 1
             ref = h.refs[id(doc)]
@@ -69,11 +72,13 @@ def run(ctx):
         c = lambda n: P.content_xml('<text:p>OBJ-%d</text:p>' % n); s = P.styles_xml()
         body = ''.join('<text:p><draw:frame><draw:object xlink:href="./Object %d"/></draw:frame></text:p>' % n for n in nums)
         members = [('content.xml', P.content_xml(body), 'text/xml'), ('styles.xml', s, 'text/xml'), ('meta.xml', P.meta_xml(), 'text/xml')]
-        extra_files = {}
+        extra_files = {}; with_settings = set()
         for n in nums:
             members += [('Object %d/' % n, '', C03.MIMEC if n % 2 else PC.MIMES['sheet']), ('Object %d/content.xml' % n, c(n), 'text/xml')]
             if not (i % 3 == 1 and n == nums[0]):           # every third package: an object written without a styles.xml of its own
                 members.append(('Object %d/styles.xml' % n, s, 'text/xml'))
+            if (i + n) % 2:          # settings of its own (as a chart or a formula written by an office suite has)
+                members.append(('Object %d/settings.xml' % n, P.settings_xml(), 'text/xml')); with_settings.add(n)
             if ctx.rng.random() < 0.6:
                 members.append(('Object %d/Pictures/p.png' % n, b'PIC%d' % n, 'image/png')); extra_files['Object %d/Pictures/p.png' % n] = (b'PIC%d' % n, 'image/png')
             if ctx.rng.random() < 0.3:
@@ -105,6 +110,9 @@ def run(ctx):
             if ('OBJ-%d<' % n).encode() not in got or dict(pk['manifest']).get(folder) != dict(sp['manifest']).get(folder) or folder + 'styles.xml' not in pk['members']:
                 ctx.violation('reference-does-not-resolve', dict(case, object=n), {'content': got[-120:].decode('utf-8', 'replace'), 'manifest': dict(pk['manifest']).get(folder)},
                               'the same sub-document in ' + folder, {'order': 'loaded'})
+        for n in sorted(with_settings):
+            if 'Object %d/settings.xml' % n not in pk['members'] or b'config:name="n"' not in pk['members']['Object %d/settings.xml' % n]:
+                ctx.violation('object-settings-lost', dict(case, object=n), sorted(m for m in pk['members'] if m.startswith('Object %d/' % n)), 'Object %d/settings.xml with the settings of the source' % n, {})
         for path, (bts, mt) in extra_files.items():
             if pk['members'].get(path) != bts or dict(pk['manifest']).get(path) != mt:
                 ctx.violation('object-file-lost', dict(case, member=path), {'present': path in pk['members'], 'manifest': dict(pk['manifest']).get(path)}, 'byte-identical under the same path and media type', {})
